@@ -12,6 +12,7 @@ import (
 	"time"
 
 	"github.com/quay/claircore"
+	pkgcpe "github.com/quay/claircore/pkg/cpe"
 	"github.com/quay/claircore/toolkit/types"
 	"github.com/quay/claircore/toolkit/types/cpe"
 	"github.com/quay/claircore/verifharness/internal/hx"
@@ -49,6 +50,9 @@ func opEnumScan(r *hx.Run, s srcV) {
 			}
 			return "err"
 		}
+		if uint64(x) > uint64(claircore.Critical) {
+			r.Fail("", fmt.Sprintf("Severity.Scan(%T %s) returned nil and the non-member %d", s.v, s.wire, uint64(x)))
+		}
 		return fmt.Sprintf("ok %d", uint64(x))
 	})
 	if out == "panic" {
@@ -63,6 +67,9 @@ func opEnumScan(r *hx.Run, s srcV) {
 				r.Fail("", fmt.Sprintf("ArchOp.Scan(%T %s) failed and changed its receiver to %d", s.v, s.wire, uint64(x)))
 			}
 			return "err"
+		}
+		if uint64(x) > uint64(claircore.OpPatternMatch) {
+			r.Fail("", fmt.Sprintf("ArchOp.Scan(%T %s) returned nil and the non-member %d", s.v, s.wire, uint64(x)))
 		}
 		return fmt.Sprintf("ok %d", uint64(x))
 	})
@@ -138,7 +145,17 @@ func opDigScan(r *hx.Run, old string, s srcV) {
 	out := hx.Guard(func() string {
 		d := recvDigest(old)
 		if err := d.Scan(s.v); err != nil {
+			if showDigest(d) != showDigest(recvDigest(old)) {
+				r.Fail("", fmt.Sprintf("Digest.Scan(%T %s) failed and changed its receiver to %s", s.v, s.wire, showDigest(d)))
+			}
 			return "err " + showDigest(d)
+		}
+		if str, ok := s.v.(string); ok {
+			// a nil error means the text was a digest, and the receiver is that digest
+			want, perr := claircore.ParseDigest(str)
+			if perr != nil || showDigest(want) != showDigest(d) {
+				r.Fail("", fmt.Sprintf("Digest.Scan(%q) returned nil and left %s (ParseDigest: %v)", str, showDigest(d), perr))
+			}
 		}
 		return "ok " + showDigest(d)
 	})
@@ -404,6 +421,15 @@ func opWfnScan(r *hx.Run, old string, s srcV) {
 		if err != nil {
 			return "ok invalid"
 		}
+		if bs, ok := s.v.([]byte); ok {
+			// the scanned name must not reach into the driver's buffer
+			for i := range bs {
+				bs[i] ^= 0x55
+			}
+			if b2, _ := w.MarshalText(); string(b2) != string(b) {
+				r.Fail("", "a scanned cpe.WFN changed when the []byte it was scanned from was overwritten: "+string(b)+" -> "+string(b2))
+			}
+		}
 		// Value -> Scan gives the same name back
 		val, err := w.Value()
 		var back cpe.WFN
@@ -415,7 +441,52 @@ func opWfnScan(r *hx.Run, old string, s srcV) {
 	if out == "panic" {
 		r.Fail("", fmt.Sprintf("cpe.WFN.Scan(%T) panics on %s", s.v, s.wire))
 	}
+	if str, ok := s.v.(string); ok {
+		// UnmarshalText is the same decoder as Scan(string), with the same care for its receiver
+		u := before
+		o2 := hx.Guard(func() string {
+			if err := u.UnmarshalText([]byte(str)); err != nil {
+				if u != before {
+					r.Fail("", fmt.Sprintf("cpe.WFN.UnmarshalText(%q) failed and changed its receiver from %q to %q", str, before.String(), u.BindFS()))
+				}
+				return "err"
+			}
+			b, err := u.MarshalText()
+			if err != nil {
+				return "ok invalid"
+			}
+			return "ok " + hx.Hex(b)
+		})
+		if o2 != out {
+			r.Fail("", fmt.Sprintf("cpe.WFN.UnmarshalText(%q) = %s but Scan of the same string = %s", str, o2, out))
+		}
+	}
 	r.Op("wfn-scan "+hx.Hex([]byte(old))+" "+s.wire, out, true)
+	if str, ok := s.v.(string); ok && str != "" && old == "" {
+		// pkg/cpe is a re-export of the same decoders: same line, same answer
+		o3 := hx.Guard(func() string {
+			n, err := pkgcpe.Unbind(str)
+			if err != nil {
+				return "err"
+			}
+			b, err := n.MarshalText()
+			if err != nil {
+				return "ok invalid"
+			}
+			return "ok " + hx.Hex(b)
+		})
+		if o3 != out {
+			r.Fail("", fmt.Sprintf("pkg/cpe.Unbind(%q) = %s but toolkit cpe (Scan) = %s", str, o3, out))
+		}
+		r.Op("wfn-scan - "+s.wire, o3, false)
+		for name, f := range map[string][2]func(string) (cpe.WFN, error){"UnbindFS": {pkgcpe.UnbindFS, cpe.UnbindFS}, "UnbindURI": {pkgcpe.UnbindURI, cpe.UnbindURI}} {
+			a, ea := f[0](str)
+			b, eb := f[1](str)
+			if a != b || (ea == nil) != (eb == nil) {
+				r.Fail("", fmt.Sprintf("pkg/cpe.%s(%q) differs from the toolkit function it re-exports", name, str))
+			}
+		}
+	}
 	r.Count("wfn-scan:" + s.wire[:1] + ":" + out[:2])
 }
 
